@@ -90,6 +90,15 @@ class Builder:
             rel = owner.relations[h['ri'] - 1]
             k = rel.children.index(self.objs[h['n']])
             rel.children[k] = self.objs[h['n']] = Feature(nm.conc(h['n']), parent=owner)
+        elif a == 'EditMove':
+            f = self.objs[h['n']]
+            self.objs[h['o']].relations[h['ri'] - 1].children.remove(f)
+            target = self.objs[h['o2']]
+            target.relations[h['ri2'] - 1].add_child(f)
+            f.parent = target
+        elif a == 'EditImport':
+            sub = Feature('Imported sub-model root')
+            self.model.import_model(sub, self.model.root, [Constraint(c['name'], AST(build_node(c['ast'], nm))) for c in h['ctcs']])
         elif a == 'EditAbstract':
             self.objs[h['f']].is_abstract = not self.objs[h['f']].is_abstract
         elif a == 'EditAttrVal':
